@@ -131,7 +131,7 @@ def adopt(dirs):
             print('REJECTED', d, {k: c.get(k) for k in ('applies', 'demo_differs', 'tests_pass', 'touches_tests', 'error')})
             continue
         meta = json.load(open(os.path.join(d, 'meta.json')))
-        dest = os.path.join(VERIF, 'seeded', meta['property'], os.path.basename(d))
+        dest = os.path.join(VERIF, 'seeded', meta['property'], ('r2-' if '/rt2/' in d else '') + os.path.basename(d))
         os.makedirs(dest, exist_ok=True)
         for f in ('patch.diff', 'demo.py', 'demo_before.txt', 'demo_after.txt', 'meta.json', 'confirm.json', 'result.json'):
             if os.path.exists(os.path.join(d, f)):
